@@ -66,13 +66,15 @@ Proof.
 Qed.
 
 (* ------------------------------------------------------------------------------------------------ the constructor *)
+(* wave 7: no hypothesis on h any more -- the repaired constructor rejects h <= 0 itself (second guard), 0 < h is a CONCLUSION *)
 Theorem geometric_admissible h ql qr nb xs o :
-  0 < h -> 0 < ql -> 0 < qr -> geometric_axis h ql qr nb = Some (xs, o) ->
+  0 < ql -> 0 < qr -> geometric_axis h ql qr nb = Some (xs, o) ->
   admissible xs o h /\ headq xs == geom_l h ql nb /\ lastq xs == geom_r h qr nb
-  /\ o = nb /\ length xs = (2 * nb + 1)%nat /\ 1 < ql /\ 1 < qr.
+  /\ o = nb /\ length xs = (2 * nb + 1)%nat /\ 1 < ql /\ 1 < qr /\ 0 < h.
 Proof.
-  intros Hh Hql Hqr. unfold geometric_axis.
+  intros Hql Hqr. unfold geometric_axis.
   destruct (Nat.ltb_spec nb 2) as [|Hnb]; [discriminate|].
+  destruct (Qltb 0 h) eqn:G0; [|discriminate]. cbn [negb]. assert (Hh : 0 < h) by (apply Qltb_lt; exact G0).
   destruct (Qltb (geom_l h ql nb) (- h)) eqn:G1; [|discriminate].
   destruct (Qltb h (geom_r h qr nb)) eqn:G2; [|discriminate]. cbn [andb]. intros E.
   apply Qltb_lt in G1. apply Qltb_lt in G2. unfold geom_l in G1. unfold geom_r in G2.
@@ -87,7 +89,7 @@ Proof.
   { rewrite headq_nth, geomq_nth by lia. simpl. lra. }
   specialize (A (geom_left_incr h ql nb Hh L1) (geomq_incr h qr nb Hh R1) N1 N2 Hh LL HR).
   unfold assemble in *. cbn [app] in *. destruct A as (A1 & A2 & A3 & A4). injection E as E1 E2.
-  subst xs o. split; [exact A1|]. split; [|split; [|split; [|split; [|split; assumption]]]].
+  subst xs o. split; [exact A1|]. split; [|split; [|split; [|split; [|split; [|split]; assumption]]]].
   - rewrite A2. rewrite headq_nth, geom_left_nth by lia. unfold geom_l. rewrite Nat.sub_0_r. reflexivity.
   - rewrite A3. rewrite lastq_nth, geomq_length, geomq_nth by lia. reflexivity.
   - apply geom_left_length.
@@ -100,6 +102,7 @@ Theorem geometric_guards_suffice h ql qr nb :
 Proof.
   intros Hh Hl Hr Hn. unfold geometric_axis.
   destruct (Nat.ltb_spec nb 2) as [|_]; [lia|].
+  assert (G0 : Qltb 0 h = true) by (apply Qltb_lt; exact Hh). rewrite G0. cbn [negb].
   assert (P : forall q, 1 < q -> 1 < qpow q (nb - 1)).
   { intros q Hq. replace (nb - 1)%nat with (S (nb - 2)) by lia.
     pose proof (qpow_lt_succ q (nb - 2) Hq). pose proof (qpow_ge1 q (nb - 2) Hq). lra. }
@@ -116,12 +119,12 @@ Proof.
 Qed.
 
 Theorem geometric_grid_wf h ql qr nb dim g :
-  0 < h -> 0 < ql -> 0 < qr -> geometric_grid h ql qr nb dim = Some g ->
+  0 < ql -> 0 < qr -> geometric_grid h ql qr nb dim = Some g ->
   grid_wf g /\ g_o g = nb /\ g_h g = h /\ length (g_axes g) = dim
   /\ Forall (fun t => fst t == geom_l h ql nb /\ snd t == geom_r h qr nb) (g_trunc g).
 Proof.
-  intros Hh Hl Hr. unfold geometric_grid. destruct (geometric_axis h ql qr nb) as [[xs o]|] eqn:E; [|discriminate].
-  intros G. injection G as <-. destruct (geometric_admissible _ _ _ _ _ _ Hh Hl Hr E) as (A & H1 & H2 & H3 & _).
+  intros Hl Hr. unfold geometric_grid. destruct (geometric_axis h ql qr nb) as [[xs o]|] eqn:E; [|discriminate].
+  intros G. injection G as <-. destruct (geometric_admissible _ _ _ _ _ _ Hl Hr E) as (A & H1 & H2 & H3 & _).
   split; [apply repeat_grid_wf; exact A|]. cbn [mk_grid g_axes g_o g_h g_trunc]. repeat split; try assumption.
   - apply repeat_length.
   - apply Forall_forall. intros t Ht. apply in_map_iff in Ht. destruct Ht as (ys & <- & Hy).
@@ -159,13 +162,13 @@ Proof.
 Qed.
 
 Theorem geometric_refine_n n h ql qr nb xs o :
-  0 < h -> 0 < ql -> 0 < qr -> geometric_axis h ql qr nb = Some (xs, o) ->
+  0 < ql -> 0 < qr -> geometric_axis h ql qr nb = Some (xs, o) ->
   admissible (refine_axis_n amid n xs) (2 ^ n * nb) (h / inject_Z (2 ^ Z.of_nat n))
   /\ (forall i, (i < 2 * nb + 1)%nat -> nthq (refine_axis_n amid n xs) (2 ^ n * i) = nthq xs i)
   /\ length (refine_axis_n amid n xs) = (2 ^ n * (2 * nb) + 1)%nat
   /\ headq (refine_axis_n amid n xs) == geom_l h ql nb /\ lastq (refine_axis_n amid n xs) == geom_r h qr nb.
 Proof.
-  intros Hh Hl Hr E. destruct (geometric_admissible _ _ _ _ _ _ Hh Hl Hr E) as (A & H1 & H2 & H3 & H4 & _).
+  intros Hl Hr E. destruct (geometric_admissible _ _ _ _ _ _ Hl Hr E) as (A & H1 & H2 & H3 & H4 & _).
   destruct (refine_n_amid n xs o h A) as (R1 & R2 & R3 & R4 & R5). subst o. rewrite H4 in *.
   split; [exact R1|]. split; [exact R2|]. split; [rewrite R3; f_equal; f_equal; lia|].
   rewrite R4, R5. split; assumption.
